@@ -100,7 +100,7 @@ prop("C16",
 
 prop("C15",
      [r_si.rule_accessors, r_si.rule_compare, r_si.rule_get_pure, r_si.rule_setvalue_only, r_si.rule_read_pure,
-      r_si.rule_no_lookup_cache],
+      r_si.rule_no_lookup_cache, r_si.rule_transforms_first],
      "Sibling cross-check of the SectionItems accessors: __contains__, __getitem__, __delitem__ and set_item relate "
      "the key to an item only through self.mnemonic_compare(key, item.mnemonic) (census of every comparison that "
      "mentions the key and an element), in a single front-to-back loop over self that leaves at the first match and "
@@ -120,7 +120,7 @@ prop("C15",
 prop("C13",
      [r_si.rule_suffix_after_insert, r_si.rule_suffix_algo, r_si.rule_session_only, r_si.rule_unknown, r_si.rule_compare,
       r_si.rule_pk_state, r_wl.rule_orig_mnem, r_wl.rule_hdr_post, r_si.rule_list_primitives, r_si.rule_pk_rebuild,
-      r_si.rule_pk_list_restore, r_si.rule_read_pure, r_si.rule_accessors],
+      r_si.rule_pk_list_restore, r_si.rule_read_pure, r_si.rule_accessors, r_si.rule_transforms_first],
      "Pairing rule on CFG paths: in every SectionItems method each placement of an item through list.append/insert/"
      "__setitem__/extend is followed on every path to a normal return by assign_duplicate_suffixes, called "
      "unconditionally with the new item's useful_mnemonic; LASFile.set_data re-assigns all suffixes after renaming "
@@ -138,7 +138,7 @@ prop("C13",
 
 prop("C17",
      [r_si.rule_pk_state, r_si.rule_pk_rebuild, r_si.rule_pk_ctor, r_si.rule_pk_independent, r_si.rule_pk_list_restore, r_si.rule_suffix_algo,
-      r_wrf.rule_standardize],
+      r_wrf.rule_standardize, r_wrf.rule_frame, r_si.rule_deepcopy_memo],
      "State-coverage check: the census of attributes an item can hold (every self.X store and "
      "__setattr__('X') in HeaderItem/CurveItem) is compared with what HeaderItem.__reduce__ hands to the "
      "constructor and to __setstate__: argument 0 derives from self.original_mnemonic (not the session name), the "
@@ -393,7 +393,7 @@ def _to_csv_typestate(ctx):
 prop("C14",
      [r_lp.rule_views, r_lp.rule_route, r_lp.rule_rank, r_lp.rule_no_inplace, r_lp.rule_pu_fresh, r_si.rule_suffix_after_insert,
       r_si.rule_session_only, r_si.rule_compare, r_si.rule_accessors, r_lp.rule_no_alias_repeat, r_lp.rule_sentinel,
-      r_lp.rule_rename_reset, r_si.rule_read_pure, r_si.rule_suffix_algo, r_si.rule_list_primitives],
+      r_lp.rule_rename_reset, r_si.rule_read_pure, r_si.rule_suffix_algo, r_si.rule_list_primitives, r_lp.rule_editors_pure],
      "List-model clauses: every view (keys, values, items, __getitem__, data, index, curvesdict, get_curve, df, "
      "stack_curves) reads curve state through self.curves only, and no LASFile attribute other than `sections` is ever "
      "assigned from curve data (attribute-store census with provenance; LF.VIEWS); the ten curve mutators change the list "
